@@ -56,6 +56,22 @@ Theorem C01_ingest_ops :
     col_ops created before items = Some ops -> Forall ingest_op ops.
 Proof. exact col_ops_ingest. Qed.
 
+(* What the front end accepts for a string column (/repo 1c4a1c7, former finding F11: equality was
+   asserted): at most as many strings as the batch has rows; the column then means its strings followed
+   by NULLs.  (A table buffer with zero rows is skipped altogether since /repo 1eb96cd, former F12:
+   [col_ops] ignores such items.) *)
+Theorem C01_accepts_short_string :
+  forall (ss : list str) (rows : Z),
+    zlen ss <= rows ->
+    exists ic, from_column_data (CDString ss) rows = Some ic /\
+               exists ops, ops_of_input ic = Some ops /\ Forall ingest_op ops.
+Proof. exact from_column_data_short_string. Qed.
+
+Theorem C01_short_string_expected :
+  forall (f2s : Z -> str) (ss : list str) (n : nat),
+    expected f2s (map op_of_val (map RStr ss ++ repeat RNull n)) = map CStr ss ++ repeat CNull n.
+Proof. exact short_string_column_expected. Qed.
+
 (* ---------------------------------------------------------------------------------------------- *)
 (* The null bitmap, for every ingestion history: bit i is set iff cell i is not NULL; no bit at or
    beyond the length; a buffer without a bitmap is either entirely NULL (still untyped) or has no NULL. *)
